@@ -48,6 +48,10 @@ def main() -> int:
             tier = replay.get("tier", tier)
         ctx = common.Ctx(prop, tier, seed)
         ctx.audit_result = common.audit(prop, tier)
+        import tie
+        tie_res = tie.run(prop, ctx.audit_result)
+        if tie_res is not None:
+            ctx.notes["translator_tie"] = tie_res
         common.start_coverage(f"{prop}-{tier}")
         common.import_ginjax()
         if replay is not None and hasattr(mod, "replay") and replay.get("kind") != "theorem":
@@ -56,7 +60,8 @@ def main() -> int:
         else:
             mod.run(ctx)
             changed = common.changed_anchor_files(prop)
-            if changed and not ctx.violations and not os.environ.get("VERIF_NO_SECOND_PASS"):
+            tie_lost = tie_res is not None and tie_res["status"] != "proved"
+            if (changed or tie_lost) and not ctx.violations and not os.environ.get("VERIF_NO_SECOND_PASS"):
                 # the modelled source differs from the tree the correspondence was last validated on:
                 # explore more of it (second pass, different random stream); never an alarm by itself
                 common.log(f"[{prop}] anchor files changed: {changed} -> second pass with another random stream")
